@@ -11,9 +11,9 @@
 
 namespace {
 
-const int OVER[] = { TLS1_1_VERSION, TLS1_2_VERSION, TLS1_3_VERSION };
-const uint32_t MVER[] = { v_tls_1_1, v_tls_1_2, v_tls_1_3 };
-const char *VN[] = { "tls1.1", "tls1.2", "tls1.3" };
+const int OVER[] = { TLS1_1_VERSION, TLS1_2_VERSION, TLS1_3_VERSION, DTLS1_VERSION, DTLS1_2_VERSION };
+const uint32_t MVER[] = { v_tls_1_1, v_tls_1_2, v_tls_1_3, v_dtls_1_0, v_dtls_1_2 };
+const char *VN[] = { "tls1.1", "tls1.2", "tls1.3", "dtls1.0", "dtls1.2" };
 struct Grp { uint16_t id; const char *name; };
 const Grp GROUPS[] = { { 23, "P-256" }, { 24, "P-384" }, { 25, "P-521" }, { 29, "X25519" } };
 const size_t PAYLOADS[] = { 1, 2, 15, 16, 17, 255, 256, 1023, 1500, 4096, 16383, 16384, 16385, 20000, 33000 };
@@ -51,8 +51,9 @@ struct Interop {
         if (!mkeys) { setup_err = "matrix key load rc=" + std::to_string(rc); return false; }
         vsim_set_node(NODE_HARNESS);
         if (role == 0 && matrixSslNewSessionId(&sid, nullptr) < 0) { setup_err = "NewSessionId"; return false; }
-        OsslCfg oc; oc.server = role == 0;
-        if (p.get("orange")) { oc.min_ver = TLS1_1_VERSION; oc.max_ver = TLS1_3_VERSION; } else { oc.min_ver = oc.max_ver = OVER[ver]; }
+        OsslCfg oc; oc.server = role == 0; oc.dtls = ver >= 3;
+        if (oc.dtls) { oc.min_ver = DTLS1_VERSION; oc.max_ver = p.get("orange") ? DTLS1_2_VERSION : OVER[ver]; if (!p.get("orange")) { oc.min_ver = OVER[ver]; } }
+        else if (p.get("orange")) { oc.min_ver = TLS1_1_VERSION; oc.max_ver = TLS1_3_VERSION; } else { oc.min_ver = oc.max_ver = OVER[ver]; }
         std::string cname = ossl_cipher_name_for_id(suite);
         if (cname.empty()) { setup_err = "not_mutual: OpenSSL has no suite " + std::to_string(suite); return false; }
         if (role == 1) { if (tls13) { oc.suites13 = cname; } else { oc.cipher_list = cname; } }
@@ -66,7 +67,7 @@ struct Interop {
         return true;
     }
     EpCfg mx_cfg() {
-        EpCfg c; c.server = role == 1; c.node = role == 1 ? NODE_SERVER : NODE_CLIENT;
+        EpCfg c; c.server = role == 1; c.node = role == 1 ? NODE_SERVER : NODE_CLIENT; c.dtls = ver >= 3;
         c.versions = { MVER[ver] };
         if (!c.server) { c.suites = { suite }; c.sid = sid; c.ticket_resumption = tickets; }
         c.client_auth = c.server && cauth != 0;
@@ -76,6 +77,7 @@ struct Interop {
     }
     // move bytes both ways until nothing moves; benign re-chunking only
     void pump(MxEndpoint &mx, OsslEndpoint &os) {
+        if (ver >= 3) { pump_dtls(mx, os); return; }
         for (int guard = 0; guard < 4000; guard++) {
             bool moved = false;
             Bytes a = mx.pull();
@@ -83,6 +85,22 @@ struct Interop {
             Bytes b = os.pull();
             if (!b.empty() && mx.alive()) { moved = true; deliver(b, [&](const unsigned char *q, size_t n) { if (mx.alive()) { mx.feed(q, n); } }); }
             if (!moved) { os.drive(); if (!os.pending_out() && !mx.pending_out()) { break; } }
+        }
+    }
+    // DTLS: MatrixSSL hands out whole datagrams; what OpenSSL wrote is cut at record boundaries, one record per datagram (lossless, in order)
+    void pump_dtls(MxEndpoint &mx, OsslEndpoint &os) {
+        for (int guard = 0; guard < 400; guard++) {
+            bool moved = false;
+            // (only while the library asked to send: an unprompted matrixDtlsGetOutdata is the resend-timer call)
+            for (int k = 0; k < 64 && mx.alive() && mx.wants_send; k++) { Bytes d = mx.pull(); if (d.empty()) { break; } moved = true; os.feed(d.data(), d.size()); counters["net.datagram"]++; }
+            Bytes b = os.pull();
+            size_t off = 0;
+            while (off + 13 <= b.size() && mx.alive()) {
+                size_t n = 13 + ((size_t) b[off + 11] << 8 | b[off + 12]);
+                if (off + n > b.size()) { break; }
+                mx.feed(b.data() + off, n); off += n; moved = true; counters["net.datagram"]++;
+            }
+            if (!moved) { os.drive(); if (!os.pending_out() && !mx.wants_send) { break; } }
         }
     }
     template <class F> void deliver(const Bytes &b, F f) {
@@ -109,6 +127,7 @@ struct Interop {
             std::vector<Bytes> to_os, to_mx;
             for (int k = 0; k < 3; k++) {
                 size_t la = PAYLOADS[(uint64_t) (p.get("pl") + k * 5 + idx) % (sizeof PAYLOADS / sizeof PAYLOADS[0])], lb = PAYLOADS[(uint64_t) (p.get("pl") / 16 + k * 3 + idx) % (sizeof PAYLOADS / sizeof PAYLOADS[0])];
+                if (ver >= 3) { la = 1 + la % 1100; lb = 1 + lb % 1100; }    // one datagram each
                 Bytes a = tagged_payload(0, idx * 10 + k, la), b = tagged_payload(1, idx * 10 + k, lb);
                 // MatrixSSL sends in <= 16384-byte pieces: the application splits larger payloads itself (documented API behaviour)
                 for (size_t off = 0; off < a.size(); off += 16384) { size_t n = a.size() - off < 16384 ? a.size() - off : 16384; if (mx.app_send(a.data() + off, n, (k & 1) != 0) < 0) { c.why = "matrix app_send failed"; } }
@@ -162,7 +181,7 @@ int control_mm(const Plan &p, bool resume) {
 bool control_oo(const Plan &p, bool resume) {
     int ver = (int) p.get("ver"); int sid_kind = (int) p.get("sid_kind", KK_RSA2048), cauth = (int) p.get("cauth", 0);
     std::string cname = ossl_cipher_name_for_id((uint16_t) p.get("suite"));
-    OsslCfg s, c; s.server = true; s.min_ver = s.max_ver = c.min_ver = c.max_ver = OVER[ver];
+    OsslCfg s, c; s.server = true; s.min_ver = s.max_ver = c.min_ver = c.max_ver = OVER[ver]; s.dtls = c.dtls = ver >= 3;
     if (ver == 2) { c.suites13 = cname; } else { c.cipher_list = cname; }
     s.identity = sid_kind; c.ca_mask = 1u << sid_kind; c.identity = cauth; if (cauth) { s.ca_mask = 1u << cauth; s.request_client_cert = true; }
     s.tickets = c.tickets = p.get("tickets") != 0 || ver == 2;
@@ -174,9 +193,12 @@ bool control_oo(const Plan &p, bool resume) {
     for (int round = 0; ok && round < (resume ? 2 : 1); round++) {
         OsslEndpoint se, ce;
         ok = se.create(ss, false) && ce.create(cs, round == 1);
-        for (int g = 0; ok && g < 200; g++) { Bytes a = ce.pull(); if (!a.empty()) { se.feed(a.data(), a.size()); } Bytes b = se.pull(); if (!b.empty()) { ce.feed(b.data(), b.size()); } if (a.empty() && b.empty()) { break; } }
+        auto xfer = [&](OsslEndpoint &from, OsslEndpoint &to) { Bytes a = from.pull(); if (a.empty()) { return false; }
+            if (ver < 3) { to.feed(a.data(), a.size()); return true; }
+            size_t off = 0; while (off + 13 <= a.size()) { size_t n = 13 + ((size_t) a[off + 11] << 8 | a[off + 12]); if (off + n > a.size()) { break; } to.feed(a.data() + off, n); off += n; } return true; };
+        for (int g = 0; ok && g < 200; g++) { bool m1 = xfer(ce, se), m2 = xfer(se, ce); if (!m1 && !m2) { break; } }
         ok = ok && se.complete && ce.complete && !se.failed && !ce.failed;
-        if (ok) { unsigned char x[4] = { 1, 2, 3, 4 }; se.app_send(x, 4); Bytes b = se.pull(); ce.feed(b.data(), b.size()); ce.app_close(); Bytes a = ce.pull(); if (!a.empty()) { se.feed(a.data(), a.size()); } }
+        if (ok) { unsigned char x[4] = { 1, 2, 3, 4 }; se.app_send(x, 4); xfer(se, ce); ce.app_close(); xfer(ce, se); }
     }
     ossl_shared_free(ss); ossl_shared_free(cs);
     return ok;
@@ -201,22 +223,23 @@ static Plan c10_gen(uint64_t seed, int tier, uint64_t index) {
     (void) tier; (void) index;
     Rng r(seed);
     Plan p;
-    int role = (int) r.below(2), ver = (int) r.below(3);
+    int role = (int) r.below(2), ver = (int) r.below(5);
     if (ver == 2) {
         static const int K13[] = { KK_RSA2048, KK_EC256, KK_EC384, KK_EC521, KK_EC256 };
         base_cfg(p, role, ver, S13[r.below(3)], K13[r.below(5)]);
     } else {
         const SuiteRow *row;
-        do { row = &ROWS[r.below(sizeof ROWS / sizeof ROWS[0])]; } while (row->min12 && ver == 0);
+        do { row = &ROWS[r.below(sizeof ROWS / sizeof ROWS[0])]; } while (row->min12 && (ver == 0 || ver == 3));
         int kind = row->kind; if (kind == KK_EC256) { static const int EK[] = { KK_EC256, KK_EC256, KK_EC384, KK_EC521 }; kind = EK[r.below(4)]; }
         base_cfg(p, role, ver, row->id, kind);
-        if (r.chance(1, 2)) { p.cfg["tickets"] = 1; }
+        if (r.chance(1, 2) && ver < 3) { p.cfg["tickets"] = 1; }      // DTLS + RFC 5077 tickets stalls inside MatrixSSL itself (DESIGN 16.8): session-id resumption only
         if (r.chance(1, 8)) { p.cfg["noems"] = 1; }
     }
     if (r.chance(1, 3)) { static const int CK[] = { KK_RSA2048, KK_EC256, KK_EC384, KK_EC384_SHA384, KK_EC384_SHA384 }; p.cfg["cauth"] = CK[r.below(5)]; }
     // groups: MatrixSSL side offers 1-3, OpenSSL side default (all) or restricted; a first share the peer refuses gives HelloRetryRequest in TLS 1.3
     // (X25519 only with TLS 1.3: MatrixSSL does not offer it in its TLS <= 1.2 hellos, so it is not a mutually supported TLS <= 1.2 group)
     int ngroups = ver == 2 ? 4 : 3;
+    if (ver >= 3) { p.cfg["chunk"] = 0; }
     int ng = 1 + (int) r.below(3); std::vector<int> gi = { 0, 1, 2, 3 };
     for (int i = 0; i < ng; i++) { size_t j = (size_t) i + (size_t) r.below((uint64_t) (ngroups - i)); std::swap(gi[(size_t) i], gi[j]); p.cfg["grp_m" + std::to_string(i + 1)] = GROUPS[gi[(size_t) i]].id; }
     if (r.chance(1, 3)) { int pick = (int) r.below((uint64_t) ng); p.cfg["grp_o1"] = GROUPS[gi[(size_t) pick]].id; }   // the peer accepts only one of them
@@ -257,6 +280,16 @@ static std::vector<Plan> c10_fixed(int tier) {
                     }
                 }
             }
+        }
+    }
+    // DTLS 1.0 / 1.2: every suite both stacks have, both roles, first connection + session-id resumption
+    for (int role = 0; role < 2; role++) {
+        for (int ver = 3; ver < 5; ver++) {
+            for (auto &row : ROWS) {
+                if (row.min12 && ver == 3) { continue; }
+                Plan p; p.seed = 106000 + (uint64_t) (role * 10000 + ver * 1000 + row.id % 997); base_cfg(p, role, ver, row.id, row.kind); p.cfg["resume"] = 1; p.cfg["pl"] = row.id % 50; v.push_back(p);
+            }
+            for (int ck : { KK_RSA2048, KK_EC256 }) { Plan p; p.seed = 107000 + (uint64_t) (role * 100 + ver * 10 + ck); base_cfg(p, role, ver, ver == 3 ? TLS_ECDHE_RSA_WITH_AES_128_CBC_SHA : TLS_ECDHE_RSA_WITH_AES_128_GCM_SHA256, KK_RSA2048); p.cfg["cauth"] = ck; v.push_back(p); }
         }
     }
     return v;
@@ -307,7 +340,7 @@ static RunResult c10_exec(const Plan &p) {
 }
 
 static ModuleRegistrar reg({ "C10", "interop", "exploration",
-    "fixed plans: the whole mutually supported matrix once - role (MatrixSSL client vs OpenSSL server, OpenSSL client vs MatrixSSL server) x TLS 1.1/1.2/1.3 x every suite both stacks have "
+    "fixed plans: the whole mutually supported matrix once - role (MatrixSSL client vs OpenSSL server, OpenSSL client vs MatrixSSL server) x TLS 1.1/1.2/1.3 and DTLS 1.0/1.2 x every suite both stacks have "
     "(RSA / ECDHE-RSA / ECDHE-ECDSA with AES-CBC-SHA/SHA256/SHA384 and AES-GCM; TLS 1.3 AES-128/256-GCM, ChaCha20-Poly1305) x session-id / ticket / TLS 1.3 PSK resumption x groups incl. HelloRetryRequest x client auth; "
     "seeded plans: swarm over the same axes plus server key kinds (RSA-2048, P-256/384/521), group offers, key-share counts, OpenSSL version range, EMS off, 1-2 resumed connections, payload lengths from a boundary set (1..33000) and "
     "four re-chunking modes. non-trivial = at least one connection was attempted with both stacks; distinct = distinct (transcript digest, outcome)",
@@ -315,5 +348,5 @@ static ModuleRegistrar reg({ "C10", "interop", "exploration",
     { "core", "crypto", "matrixssl (one endpoint per connection)", "OpenSSL libssl/libcrypto 3.x (the independent peer, static, in-process; its RNG replaced by a seeded stream, its clock simulated)" },
     { "transport (in-memory, benign re-chunking only)", "applications", "clock", "entropy" },
     { "configurations one of the stacks cannot do against itself are counted as not_mutual, not as violations",
-      "DTLS, PSK suites, DHE-RSA and static ECDH suites are not part of this workload (OpenSSL 3 lacks or disables several of them)" },
+      "PSK suites, DHE-RSA and static ECDH suites are not part of this workload (OpenSSL 3 lacks or disables several of them); DTLS runs are lossless and in order (loss is C16's business)" },
     "asan", c10_fixed, false });
